@@ -124,6 +124,9 @@ func divInterval(x, y IntV) (qlo, qhi, rlo, rhi *big.Int) {
 }
 
 func (ex *Exec) binop(op token.Token, xv, yv Value, xt types.Type, rt types.Type) Value {
+	if isSymFloat(xv) || isSymFloat(yv) {
+		return ex.floatBin(op, xv, yv)
+	}
 	switch x := xv.(type) {
 	case BoolV:
 		y := yv.(BoolV)
@@ -590,6 +593,8 @@ func (ex *Exec) unop(x *ssa.UnOp, v Value) Value {
 		switch a := v.(type) {
 		case FloatV:
 			return FloatV{-a.F}
+		case SymFloatV, NearestV:
+			return ex.floatNeg(a)
 		case IntV:
 			bits, signed, _ := intKind(x.Type())
 			if a.IsBV() {
@@ -639,7 +644,11 @@ func (ex *Exec) convert(v Value, from, to types.Type) Value {
 	case IntV:
 		if isFloat(to) {
 			if !a.IsConst() {
-				ex.stop("cut_float", "symbolic int to float conversion")
+				if b, ok := to.Underlying().(*types.Basic); !ok || b.Kind() != types.Float64 {
+					ex.stop("cut_float", "symbolic int to float32 conversion")
+				}
+				_, fsigned, _ := intKind(from)
+				return ex.intToFloat(a, fsigned)
 			}
 			f, _ := new(big.Float).SetInt(a.Const()).Float64()
 			return FloatV{f}
@@ -694,6 +703,14 @@ func (ex *Exec) convert(v Value, from, to types.Type) Value {
 			bi, _ := bf.Int(nil)
 			return ex.mkInt(IntConst(bi), bi, bi, to)
 		}
+	case SymFloatV, NearestV:
+		if b, ok := to.Underlying().(*types.Basic); ok && b.Kind() == types.Float64 {
+			return a
+		}
+		if _, _, ok := intKind(to); ok {
+			return ex.floatToInt(a, to)
+		}
+		ex.stop("cut_float", "conversion of a symbolic float")
 	case StrV:
 		if isString(to) {
 			return a
